@@ -257,7 +257,7 @@ func runC04(c *fw.Case) (o fw.Outcome) {
 
 // c04Fragment: strings and open types whose length determinant is fragmented (>= 16K).
 func c04Fragment(c *fw.Case) (o fw.Outcome) {
-	sizes := []int{16383, 16384, 16385, 20000, 32768, 49152, 65535, 65536, 65537, 81920, 131072}
+	sizes := []int{16383, 16384, 16385, 20000, 32768, 49152, 65535, 65536, 65537, 81920, 81921, 90000, 100000, 131072, 131073, 140000, 200000}
 	n := sizes[(c.Idx/250)%len(sizes)]
 	o.Tag("fragmentation")
 	o.Digest, o.Nontrivial = fw.HashS("frag", fmt.Sprint(n), fmt.Sprint(c.Idx%500 < 250)), true
